@@ -60,7 +60,13 @@ func (gi *gitlabImporter) ImportAll(ctx context.Context, repo *cache.RepoCache, 
 	go func() {
 		defer close(out)
 
-		for issue := range Issues(ctx, gi.client, gi.conf[confKeyProjectID], since) {
+		// a failed listing must be reported: otherwise the run looks clean, the caller
+		// records it as the last import and the issues not listed are never imported
+		onListError := func(err error) {
+			out <- core.NewImportError(fmt.Errorf("issue listing: %v", err), "")
+		}
+
+		for issue := range Issues(ctx, gi.client, gi.conf[confKeyProjectID], since, onListError) {
 
 			b, err := gi.ensureIssue(repo, issue)
 			if err != nil {
